@@ -2469,6 +2469,9 @@ func (data *Data) newShardGroup(rpi *RetentionPolicyInfo, timestamp time.Time, e
 		// Shard group range is [start, end) so add one to the max time.
 		sgi.EndTime = time.Unix(0, models.MaxNanoTime+1)
 	}
+	if sgi.StartTime.Before(time.Unix(0, models.MinNanoTime)) {
+		sgi.StartTime = time.Unix(0, models.MinNanoTime).UTC()
+	}
 	return &sgi
 }
 
